@@ -95,6 +95,15 @@ def _has_key_a(d):
     return "a" in d
 
 
+def _join_ab(d):
+    # reads two entries of the tag set: only meaningful when it sees the whole set
+    return {"z": (d.get("a") or "") + "+" + (d.get("b") or "")}
+
+
+def _sum_vw(d):
+    return {"s": (d.get("v") or 0) + (d.get("w") or 0)}
+
+
 def _plus_1s(t):
     import datetime
 
@@ -120,6 +129,8 @@ FN = {
     "ident": _ident,
     "has_key_a": _has_key_a,
     "plus_1s": _plus_1s,
+    "join_ab": _join_ab,
+    "sum_vw": _sum_vw,
 }
 
 OPS = {
